@@ -66,6 +66,10 @@ pub mod c19 {
 pub mod c19_gen {
     include!(concat!(env!("ETHERCRAB_VERIF_DIR"), "/c19_gen.rs"));
 }
+#[cfg(kani)]
+pub mod c15 {
+    include!(concat!(env!("ETHERCRAB_VERIF_DIR"), "/c15.rs"));
+}
 #[cfg(all(kani, ethercrab_verif_h1))]
 pub mod c11 {
     include!(concat!(env!("ETHERCRAB_VERIF_DIR"), "/c11.rs"));
@@ -77,6 +81,10 @@ pub mod c16 {
 #[cfg(all(kani, ethercrab_verif_yield = "on"))]
 pub mod cwin {
     include!(concat!(env!("ETHERCRAB_VERIF_DIR"), "/cwin.rs"));
+}
+#[cfg(all(kani, ethercrab_verif_h1))]
+pub mod c18 {
+    include!(concat!(env!("ETHERCRAB_VERIF_DIR"), "/c18.rs"));
 }
 #[cfg(all(kani, test))]
 mod playback_current {
